@@ -3,14 +3,20 @@ import MorfuseModel.Gen.Primes
 import Driver.Util
 /-! driver for the `con::set` / `con::map` model (property C18).  Keys are `0 … n-1`, the hash of key
 `k` is the k-th number of the `reset` line (so the generator chooses which keys collide), values are
-naturals (`ValueT()` = 0). -/
+naturals (`ValueT()` = 0).  There are two maps (`sel 0|1` chooses the one the other lines act on and
+observe) so that an enumerator can be re-bound to ANOTHER set: `estart` = `set_enum en(selected)`, `enew` =
+`set_enum en` (default-constructed), `erebind i` = `en = map_i` (`set_enum::operator=(set&)` on the existing
+enumerator, whatever its state), `enext` = `NextElement()` on the set the enumerator is bound to. -/
 namespace Driver.HashSet
 open Morfuse.HashSet
 
 structure St where
   s : State Nat Nat := init
   hashes : Array Nat := #[]
+  o : State Nat Nat := init               -- the map that is NOT selected
+  sel : Nat := 0                          -- which of the two maps `s` is
   en : Option (Enum Nat Nat) := none      -- a live enumerator (invalidated by every mutation)
+  enSet : Option Nat := none              -- the map the enumerator is bound to (`none`: default-constructed)
   quiet : Bool := false                   -- long growth histories: contents only on `enum` lines
 
 def primes : List Nat := Morfuse.Gen.setPrimes
@@ -34,7 +40,7 @@ def optVal : Option Nat → String
   | none => "none"
 
 def mutate (st : St) (s : State Nat Nat) (ret : String) : St × String :=
-  ({ st with s := s, en := none }, s!"ok {ret} | {obsQ st.quiet s}")
+  ({ st with s := s, en := none, enSet := none }, s!"ok {ret} | {obsQ st.quiet s}")
 
 def step (st : St) (t : List String) : St × String :=
   match t with
@@ -85,12 +91,32 @@ def step (st : St) (t : List String) : St × String :=
   | ["enum"] =>
     -- a full sweep of map_enum::NextKey / CurrentValue, in visit order
     (st, s!"ok {showPairs ((enumAll st.s).map fun e => (e.key, e.val))} | {obsQ st.quiet st.s}")
-  | ["estart"] => ({ st with en := some (enumStart st.s) }, s!"ok - | {obsQ st.quiet st.s}")
+  | ["sel", i] =>
+    if i = "0" ∨ i = "1" then
+      let j := if i = "0" then 0 else 1
+      let st := if j = st.sel then st else { st with s := st.o, o := st.s, sel := j }
+      (st, s!"ok - | {obsQ st.quiet st.s}")
+    else (st, "bad-op")
+  | ["estart"] => ({ st with en := some (enumStart st.s), enSet := some st.sel }, s!"ok - | {obsQ st.quiet st.s}")
+  | ["enew"] => ({ st with en := some enumDefault, enSet := none }, s!"ok - | {obsQ st.quiet st.s}")
+  | ["erebind", i] =>
+    if i = "0" ∨ i = "1" then
+      let j := if i = "0" then 0 else 1
+      match st.en with
+      | none => (st, "bad-op")
+      | some en =>
+        let target := if j = st.sel then st.s else st.o
+        ({ st with en := some (enumRebind target en), enSet := some j }, s!"ok - | {obsQ st.quiet st.s}")
+    else (st, "bad-op")
   | ["enext"] =>
     match st.en with
     | none => (st, "bad-op")
     | some en =>
-      let (en, r) := enumNext st.s en
+      -- `m_Set`: the map the enumerator is bound to (a default-constructed one never reads it)
+      let bound := match st.enSet with
+        | some j => if j = st.sel then st.s else st.o
+        | none => init
+      let (en, r) := enumNext bound en
       let ret := match r with | some e => s!"{e.key}:{e.val}" | none => "end"
       ({ st with en := some en }, s!"ok {ret} | {obsQ st.quiet st.s}")
   | _ => (st, "bad-op")
